@@ -789,6 +789,14 @@ func Verif_C32_Auth2Plain() {
 	c32Run(c32Params{k: 2, alphabet: c32Alphabet(0), keys: 2, mask: 7, verdicts: c32AllVerdicts, maxTries: -1})
 }
 
+// Verif_C32_Auth2NoSig: two requests without signed publickey requests (none, password,
+// keyboard-interactive, unknown method, query). A subset of Auth2Plain that needs no signature
+// model, used for the translator cross-check (engine concrete mode vs native run).
+func Verif_C32_Auth2NoSig() {
+	c32Run(c32Params{k: 2, keys: 2, mask: 7, verdicts: c32AllVerdicts, maxTries: -1,
+		alphabet: []int{c32A(c32KNone, 0), c32A(c32KPassword, 0), c32A(c32KKbdInt, 0), c32A(c32KBogus, 0), c32A(c32KQuery, c32SGood)}})
+}
+
 // Verif_C32_Auth2None: as Auth2Plain with NoClientAuth and NoClientAuthCallback.
 func Verif_C32_Auth2None() {
 	c32Run(c32Params{k: 2, alphabet: c32Alphabet(0), keys: 2, mask: 7, noClientAuth: true, noneCb: true, verdicts: c32AllVerdicts, maxTries: -1})
